@@ -71,8 +71,9 @@ prop('C04', title='Incoming Interests reach exactly the handler of their longest
      level_text='Unbounded proof of appv2 _on_interest against the assumed pygtrie contract of longest_prefix: only the handler stored at the '
                 'longest attached prefix can be invoked, at most once, none when nothing matches; reply transmits iff now <= deadline and '
                 'returns True iff it sent; attach_handler / detach_handler against an assumed trie (refused attach changes nothing, other '
-                'prefixes untouched); legacy _on_interest: longest registered prefix only, at most once, extras exactly as registered. '
-                'Representation independence of attach/detach and the legacy registration API are bounded.',
+                'prefixes untouched); legacy _on_interest: longest registered prefix only, at most once, extras exactly as registered; '
+                'legacy set_interest_filter / unset_interest_filter (same clauses as attach / detach). Representation independence of '
+                'the name forms is bounded.',
      level_note='pygtrie (longest_prefix, setdefault, __delitem__) is assumed and validated at run time by the bounded stand-in; '
                 'create_task is modelled as eager execution.',
      technique=T_MIXED)
@@ -201,7 +202,9 @@ prop('C17', title='Prefix registration speaks the forwarder management protocol 
      level_text='Unbounded proof for NfdRegister.register / unregister against assumed contracts of the app, clock, sleep and semaphore: '
                 'exactly one command naming the prefix, sent while holding the semaphore, SignatureTime strictly after the previous '
                 'command, True iff the reply decodes to status 200, every other reply / exception gives False, nothing raised; '
-                'parse_response raise-set and field flow. Command layout, legacy front-end, concurrency and auto-registration are bounded.',
+                'parse_response raise-set and field flow; legacy front-end register / unregister (handler installed or removed first, a '
+                'duplicate refused before any command, one rib command with 1 s lifetime under the semaphore, True iff status 200, every '
+                'other outcome False). Command layout, concurrency and auto-registration are bounded.',
      level_note='asyncio (Semaphore, sleep advances the ms clock by >= 1), the application and the clock are assumed models.',
      technique=T_MIXED)
 prop('C18', title='State-vector sync merges monotonically and announces exactly when needed', level='proof',
